@@ -5,7 +5,7 @@ CONSTANTS
   Callers = {"t1"}
   MemberSets = {{}, {"u1"}}
   Coarse = TRUE
-  SimLen = 0
-ACTION_CONSTRAINT Emit
-VIEW View
+  SimLen = 30
+ACTION_CONSTRAINT EmitSim
+
 CHECK_DEADLOCK FALSE
